@@ -214,7 +214,9 @@ extern bg_bool bg_SYSTEM_IS_BIG_ENDIAN;
    ghost number of true entries.  queue<VertexIndex>: a BAG (the order of a queue is not modelled: front()
    yields some member, pop() removes that one) with ghost totals of pushes and pops. */
 typedef struct { bg_size n; VertexIndex vP, vQ; } bg_vec_u;
-typedef struct { bg_size n; bg_bool vP, vQ; bg_size nTrue; bg_size restTrue; /* true entries off the observation points */ } bg_vec_b;
+typedef struct { bg_size n; bg_bool vP, vQ; bg_size nTrue; bg_size restTrue; /* true entries off the observation points */
+                 bg_bool lastValid; bg_size lastI; bg_bool lastB; /* the unobserved bit read most recently */ } bg_vec_b;
+#define BG_VECB_OBS(v) (((bg_size)G_P < (v).n ? 1 : 0) + ((G_P != G_Q && (bg_size)G_Q < (v).n) ? 1 : 0))
 typedef struct { bg_vec_b *v; bg_size i; } bg_bitref;
 typedef struct {
   bg_size nP, nQ, nO;                 /* members equal to G_P, to G_Q (0 when G_P == G_Q), others */
@@ -228,7 +230,9 @@ extern bg_size bg_ghost_scans;        /* ghost: neighbourhood scans of the runni
 extern VertexIndex bg_scratch_u;
 #define BG_QUEUE_LEN(q) ((q).nP + (q).nQ + (q).nO)
 #define BG_VECB_WF(v) ((v).nTrue == ((v).vP && (bg_size)G_P < (v).n ? 1 : 0) + ((v).vQ && G_P != G_Q && (bg_size)G_Q < (v).n ? 1 : 0) + (v).restTrue && \
-                       (v).restTrue <= (v).n && (v).nTrue <= (v).n)
+                       (v).n <= ((bg_size)1 << 32) && (v).restTrue <= (v).n && (v).restTrue + BG_VECB_OBS(v) <= (v).n && \
+                       (!(v).lastValid || ((v).lastI != (bg_size)G_P && (v).lastI != (bg_size)G_Q && (v).lastI < (v).n && \
+                                           ((v).lastB ? (v).restTrue > 0 : (v).restTrue + BG_VECB_OBS(v) < (v).n))))
 /* std::unordered_set<VertexIndex>: membership of the observation points, number of other members */
 typedef struct { bg_bool hasP, hasQ; bg_size restCount; bg_size restBound; /* every other member < restBound */ } bg_uset_u;
 /* its iterator: the elements not yet passed (the one under the cursor included); order unspecified */
